@@ -50,6 +50,23 @@ def rule_anchor(ctx):
     ctx.ob('C18.anchor', f'{f.fq}:malformed-pattern', ok,
            'compiling the incoming address can raise re.error (unbalanced [ or {, reversed range): the matcher must catch it and '
            'return False', f.node, m)
+    # a comma is an alternation only inside braces (OSC 1.0): the substitution callback must return the comma itself outside
+    inner = [x for x in ast.walk(f.node) if isinstance(x, ast.FunctionDef) and x is not f.node]
+    ok = False
+    for cb in inner:
+        for br in ast.walk(cb):
+            if isinstance(br, ast.If):
+                tests = []
+                node = br
+                while isinstance(node, ast.If):
+                    tests.append((norm(node.test), [norm(x) for x in node.body]))
+                    node = node.orelse[0] if len(node.orelse) == 1 and isinstance(node.orelse[0], ast.If) else None
+                if any(re.fullmatch(r"symbol == ',' and depth <= 0", t) and b == ["return ','"] for t, b in tests) and \
+                        any(t == "symbol == '{'" and b == ['depth += 1'] for t, b in tests) and any(t == "symbol == '}'" and b == ['depth -= 1'] for t, b in tests):
+                    ok = True
+    ctx.ob('C18.anchor', f'{f.fq}:comma-inside-braces-only', ok,
+           "the translator must keep a brace depth and translate ',' to '|' only inside {...}: otherwise the address '/a,/b' fires the "
+           "responders on '/a' and on '/b'", f.node, m)
     tab = U.literal(m.assigns.get('_rewrite_symbols'))
     ctx.require(isinstance(tab, dict), 'C18.anchor', '_rewrite_symbols is not a literal dict')
     special = set('.^$*+?{}[]\\|()')
@@ -375,6 +392,19 @@ def rule_recv(ctx):
     lp = [s for s in walk_local(u.node) if isinstance(s, ast.While)]
     ok = len(lp) == 1 and any(U.method_name(c) == '_handle_request' for c in U.calls(lp[0])) and norm(lp[0].test) == 'self._running'
     ctx.ob('C18.recv', f'{u.fq}:loop', ok, 'the receive loop handles one datagram per iteration and continues', u.node, u.module)
+    tr = ctx.repo.func('sc3.base._oscinterface:OscTcpInterface._tcp_run')
+    hs = [h for t_ in walk_local(tr.node) if isinstance(t_, ast.Try) for h in t_.handlers]
+    names = set()
+    for h in hs:
+        if h.type is None:
+            names.add('bare')
+        else:
+            names |= {norm(e) for e in (h.type.elts if isinstance(h.type, ast.Tuple) else [h.type])}
+    ok = bool(hs) and ('bare' in names or 'Exception' in names or {'OSError', 'ValueError', 'struct.error'} <= names) and \
+        all(any(norm(x) == 'self._is_connected = False' for x in h.body) and isinstance(h.body[-1], ast.Break) for h in hs)
+    ctx.ob('C18.recv', f'{tr.fq}:size-prefix-errors', ok,
+           f'the tcp receive loop catches {sorted(names)}: a negative or short size prefix raises ValueError / struct.error, which must end '
+           f'the loop as a lost connection (is_connected False) instead of killing the thread silently', tr.node, tr.module)
     d = ctx.repo.func('sc3.base._oscinterface:OscInterface._msg_dispatch')
     src = full(d.node)
     ok = 'clk.SystemClock.sched(0, sched_func)' in src and 'func(list(msg), time, addr, self.port)' in src
@@ -405,6 +435,17 @@ def rule_tags(ctx):
                f'is unknown, so continuing reads the following arguments at the wrong offset', loops[0], m)
         break
     ctx.require(n >= 10, 'C18.wire', f'only {n} type tag branches found')
+    pc = m.functions['OscBundle._parse_contents']
+    chains = [x for x in walk_local(pc.node) if isinstance(x, ast.If) and 'dgram_is_bundle' in norm(x.test)]
+    ok = False
+    if chains:
+        node = chains[0]
+        while len(node.orelse) == 1 and isinstance(node.orelse[0], ast.If):
+            node = node.orelse[0]
+        ok = bool(node.orelse) and isinstance(node.orelse[-1], ast.Raise) and 'OscBundleParseError' in norm(node.orelse[-1])
+    ctx.ob('C18.wire', f'{pc.fq}:unknown-element', ok,
+           'a bundle element that is neither a bundle nor a message makes the whole datagram malformed: the parse must end with '
+           'OscBundleParseError instead of skipping the element and dispatching its siblings', pc.node, m)
 
 
 def run(ctx):
@@ -418,6 +459,12 @@ def run(ctx):
 
 
 MUTANTS = [
+    dict(rule='C18.anchor', name='(fix reverted) every comma of a pattern is an alternation', file='sc3/base/_oscmatch.py',
+         old="        elif symbol == ',' and depth <= 0:\n            return ','  # A comma is only special within braces.\n", new=""),
+    dict(rule='C18.wire', name='(fix reverted) an unidentifiable bundle element is skipped', file='sc3/base/_osclib.py',
+         old="                    raise OscBundleParseError(\n                        'Could not identify content type '\n                        f'of dgram {content_dgram}')", new="                    _logger.warning('Could not identify content type '\n                                    f'of dgram {content_dgram}')"),
+    dict(rule='C18.recv', name='(fix reverted) tcp receiver only catches OSError', file='sc3/base/_oscinterface.py',
+         old="            except (OSError, ValueError, struct.error) as e:", new="            except OSError as e:"),
     dict(rule='C18.anchor', name='(fix reverted) re.error escapes the pattern matcher', file='sc3/base/_oscmatch.py',
          old="    try:\n        return re.fullmatch(pattern, address) is not None\n    except re.error:\n        return False  # A malformed pattern ('/a[', '/a{x') matches nothing.\n", new="    return re.fullmatch(pattern, address) is not None\n"),
     dict(rule='C18.wire', name='(fix reverted) unknown type tags are skipped without consuming their data', file='sc3/base/_osclib.py',
